@@ -283,6 +283,8 @@ def build_module(B, spec):
     mod = base()
     mod._claims, mod._proof_expressions = [], []
     mod._axioms = []
+    for n in spec.get('notations', []):      # [label, arity, definition, format]
+        mod.add_notation(P.Notation(n[0], n[1], B.to_py(n[2]), n[3]))
     for sub in spec.get('imports', []):
         mod.import_module(build_module(B, sub))
     for a in spec.get('axioms', []):
